@@ -64,7 +64,14 @@ Fixpoint resolve (s : state) (v : value) {struct v} : res value :=
                               | Ok x' => match go t with Raise e => Raise e | Ok t' => Ok ((k', x') :: t') end
                               end
                    end
-               end) l with Ok l' => Ok (VDict l') | Raise e => Raise e end
+               end) l with
+      (* config_parser._maybe_parse_container: dict(values) once every item has been parsed (so the references of
+         all items exist): keys that are equal in Python (1 / True, equal tuples, references with the same config
+         key and flag) are one entry, a key that cannot be hashed raises TypeError.  A Python dict handed to
+         bind_parameter has been through the same construction. *)
+      | Ok l' => match vdict_build l' with Some d => Ok (VDict d) | None => Raise "TypeError" end
+      | Raise e => Raise e
+      end
   | VRef sc sel ev =>
       match reg_lookup s sel with
       | LFound c => Ok (VRef sc (c_sel c) ev)
